@@ -344,6 +344,8 @@ def run(ctx):
     # growth: the progress monitor itself (spec/Monitor.tla) - design checked exhaustively, behaviours replayed under a virtual clock
     from vlib import monitorflow
     ctx.tlc("Monitor", "MC_Monitor_mc.cfg", workers=16, timeout=600)
+    for w in ("1", "2"):   # vacuity guards: a completed run and the floating-point slack case are reachable in the model
+        ctx.tlc("Monitor", "MC_Monitor_witness%s.cfg" % w, workers=4, timeout=120, expect_violation=True)
     monitorflow.run(ctx, 300 if ctx.quick else 3000)
     ctx.notes["functions_exercised"] = sorted(set(ev["fn"] for log in logs for ev in log))
     ctx.assumptions += ["results and arguments are compared through canonical digests (dtype, shape, values; dict order; filter attributes)",
